@@ -87,7 +87,9 @@ HOSTS = ["Aggregate({X}, 0, lambda a, v: a + v)", "Aggregate(ds, {X}, lambda a, 
          "Sum(Max({X}, {X}))", "len(Count())", "Max(Sum({X}, 1, 2))", "Count(Min(k={X}))", "Sum(Max({X}, {X}), 1)",
          "Min(Sum(Max({X}, 1)))", "Sum(len())",
          # keyword and starred arguments of ordinary calls with one positional argument
-         "pick({X}, n={X})", "pick(ds, n={X})", "pick(*[{X}, ds])", "pick(Select(ds, lambda v: {X}), n=2)", "Max(ds, key={X})", "Sum(*{X})"]
+         "pick({X}, n={X})", "pick(ds, n={X})", "pick(*[{X}, ds])", "pick(Select(ds, lambda v: {X}), n=2)", "Max(ds, key={X})", "Sum(*{X})",
+         # one plain argument next to starred ones: still not the one-argument call
+         "Sum({X}, *ps)", "Sum(*ps, {X})", "Max({X}, *[{X}])", "len({X}, *ps, *qs)", "Count(*ps, {X}, *qs)"]
 HOST_XS = ["Count(ds)", "len(Select(ds, lambda v: v + 1))", "Sum(ds)", "Max(Where(ds, lambda v: v > Min(ds)))", "Count(Count(ds))",
            # written-out sequences (also with starred entries) are sequences like any other
            "len([1, 2])", "Count((ds, ds))", "len([*ds, 0])", "Sum([])", "Max((1,))", "len([v for v in ds])"]
